@@ -52,6 +52,10 @@ class Engine:
         """yield smaller scenarios"""
         return iter(())
 
+    def canon_obs(self, scn, obs):
+        """observation stream with everything removed that neither the properties constrain nor the code orders"""
+        return obs
+
     def finalize(self, scn, obs):
         """record into the scenario whatever the first execution decided (explicit schedule choice lists)"""
         return None
@@ -79,7 +83,7 @@ def _worker_main(engine, profile, seed, indices, outpath, prop, deadline, opts):
                     obs = engine.execute(scn, ctx)
                     engine.finalize(scn, obs)
                     discs, stats, states = engine.judge(scn, obs)
-                    rec.update(digest=digest(obs), stats=stats, states=states, nops=engine.size(scn), sdigest=digest(scn))
+                    rec.update(digest=digest(engine.canon_obs(scn, obs)), stats=stats, states=states, nops=engine.size(scn), sdigest=digest(scn))
                     rec['discs'] = [{'prop': d['prop'], 'inv': d['inv'], 'msg': d['msg'], 'op': d.get('op'), 'zone': d.get('zone')} for d in discs]
                     kz = set(opts.get('known_zones') or ())
                     mine_d = [d for d in discs if d['prop'] == prop]
@@ -94,6 +98,8 @@ def _worker_main(engine, profile, seed, indices, outpath, prop, deadline, opts):
                         fp = fdir / f'{profile}-{seed}-{idx}.json'
                         fp.write_text(jdump({'scenario': scn, 'discs': discs}))
                         rec['saved'] = str(fp)
+                    if opts.get('return_obs'):
+                        rec['obs'] = obs
                     if opts.get('sample') and idx < opts['sample']:
                         rec['sample'] = engine.sample(scn, obs)
                 except Exception as e:  # harness error, never a violation
